@@ -79,6 +79,9 @@ func (c *checker) kind() string {
 	if c.h.Way {
 		k = "way"
 	}
+	if c.h.Span {
+		return k + "/span"
+	}
 	return k + "/" + c.h.Regime.String()
 }
 
@@ -486,7 +489,7 @@ func (c *checker) checkAnnotations() {
 
 func (c *checker) spotBase(i, x int) string {
 	cls := "commit"
-	if c.h.Regime == Stamp {
+	if c.m.Pre(c.h.Parents[i].Sec) {
 		cls = c.m.windowClass(x, c.h.Parents[i].Sec, c.h.Parents[i].CS)
 		if cls == "" {
 			cls = "mixed"
